@@ -131,7 +131,7 @@ CHECKS = {
         "CTE name -> FROM, rename operand, derived alias, self read) x every ordered pair of spellings of one base name (3 case patterns x the quote styles "
         "of the dialect) x 7 dialects: the script must treat the two spellings as one entity iff their reference normalisations are equal, and print the "
         "normalised spelling; whole dotted paths inside one pair of backticks vs. the path quoted part by part; plus ==/hash of Schema, Table, Column over every "
-        "spelling pair and the laws equal => same hash, equal <=> same printed name, set membership for columns x owners (tables, sub-selects under 0-2 aliases).",
+        "spelling pair and the laws equal => same hash, equal <=> same printed name, set membership for columns x owners (tables, sub-selects under 0-2 aliases). Fourth round: a column defined under a spelling and read back through * with a provider; the configured default schema as an identifier (bare vs qualified).",
         "Trusted: the reference normalisation N (unquoted -> lower, quoted -> quotes stripped); the per-template chaining evidence.",
         "DESIGN.md section 5 C16",
     ),
@@ -170,7 +170,7 @@ CHECKS = {
         "through a derived table, alias shadowing a column of the intermediate table) x producer "
         "kind (INSERT, CTAS, CREATE VIEW) x metadata (none, provider knowing the ultimate sources, provider non-empty but irrelevant, provider + LATERAL_COLUMN_ALIAS_REFERENCE on) is analysed; end-to-end pairs and "
         "the table-level hops of every path must equal the relational composition of the per-statement reference dataflows, statement k evaluated with the knowledge "
-        "K_k = provider + columns of tables written by statements < k.",
+        "K_k = provider + columns of tables written by statements < k. Every script run with metadata is run again with the SQLAlchemy provider holding the same knowledge; both providers must give the same observation.",
         "Trusted: refsem.columns and the K_k rule (attribution uses K_k always, * expansion only with a provider in use - DESIGN.md C04); each table written once. "
         "Known findings matched exactly from pins/C04.json.",
         "DESIGN.md section 5 C04",
@@ -182,7 +182,7 @@ CHECKS = {
         "Invariants I1-I7 (every path has a hop, consists of direct edges, starts at a column nothing feeds, ends at a column of a target/intermediate table; "
         "resolved source tables are read and connected at table level; every node retrievable by an equal object, equal nodes hash equally; a resolved column has "
         "exactly one owner edge from its parent; the flag views of get_column_lineage agree) are evaluated on every result: C01 table-profile cases (D<=2/3), C02 cases "
-        "around 5 centres, C03 histories as scripts, C04 scripts with providers, C05 scripts, and 529 corpus items under their dialects.",
+        "around 5 centres, C03 histories as scripts, C04 scripts with providers, C05 scripts, and 529 corpus items under their dialects. The flag variants of get_column_lineage are also called in the other order on a fresh runner.",
         "Trusted: the monitors themselves; the holder object reached through the runner. Known findings matched exactly from pins/C06.json.",
         "DESIGN.md section 5 C06",
     ),
@@ -204,7 +204,7 @@ CHECKS = {
         "keyword case) and every rewrite kind (whitespace -> newline+tab / single newline / single tab, blank inserted, "
         "block comment, line comment - both containing ';' -, keyword upper-cased, identifier upper-cased, lower-case identifier quoted, ';;' appended) every eligible site "
         "is rewritten singly and all sites of a kind at once (thorough: all pairs of sites for the 50 shortest seeds); tables and named-column pairs must equal the "
-        "original's. Eligibility is decided by sqlfluff (parses without violation, same significant token sequence).",
+        "original's. Eligibility is decided by sqlfluff (parses without violation, same significant token sequence). Fourth round: a block comment spanning a line break as a further rewrite kind (also under the sqlparse-based analyzer), parenthesised set-operation seeds.",
         "Trusted: sqlfluff's lexer / parser as the judge of eligibility; placeholder for display names of un-aliased expression columns. Known findings matched "
         "exactly from pins/C07.json.",
         "DESIGN.md section 5 C07",
@@ -218,7 +218,7 @@ CHECKS = {
         "(b) every corpus statement under 5 analyzers + its own (quick) / all 29 (thorough); (c) bracket nesting up to 30 at 4 positions; (d) every text of a menu of ~55 look-alikes of the supported statement kinds (names colliding with the script's tables) x dialect that the library itself "
         "declares unsupported, at every position of 1-3 supported statements, silent on/off, and texts with no statement at all. Outcome must be a result or a "
         "SQLLineageException subclass for every accessor, also on a second access after a failure; unparsable text must be InvalidSyntaxException; silent mode = "
-        "warning + result of the script without the statement.",
+        "warning + result of the script without the statement. (e) every jinja expression atom x operator x atom in three template positions (the templater evaluates them).",
         "Trusted: sqlfluff as the judge of 'cannot parse'. A neighbourhood of valid SQL, not all strings. Known findings matched by call-site signature "
         "(analyzer, exception class, innermost sqllineage frame) from known_findings.json.",
         "DESIGN.md section 5 C10",
